@@ -23,6 +23,9 @@ SealedAlerts(t) == SelectSeq(t.sub, LAMBDA x : x.k = "S" /\ x.t = "21")
 AlertShown(t, a) == \A i \in 1..Len(SealedAlerts(t)) : SealedAlerts(t)[i].n = 2 => SealedAlerts(t)[i].x = a
 
 Lenient(t) == "fault" \in DOMAIN t.sc /\ t.sc.fault = 1
+\* the call ended the session: the error flag is set, or (C19 runs, where the failing allocation may be the one for the
+\* alert itself) the API call returned an error - what the property asks for - before the flag was set
+Ended(t) == t.err # 0 \/ (Lenient(t) /\ "rc" \in DOMAIN t /\ t.rc = "Error")
 ScOf(t) == [role |-> t.sc.role, cb |-> t.sc.cb, cred |-> t.sc.cred, pop |-> t.sc.pop, carrier |-> t.sc.carrier]
 
 TAuth ==
@@ -34,7 +37,7 @@ TAuth ==
        IN /\ Len(rel) <= 1
           /\ \A i \in 1..Len(CbEvents(t)) : CbEvents(t)[i].x = (IF sc.cb = "strict" THEN 1 ELSE 2) /\ sc.cb # "none"
           \* no relevant message, or a fragment of one (DTLS) that neither completed it nor ended the session
-          /\ IF Len(rel) = 0 \/ (~Accepted(t, rel[1].t) /\ t.err = 0) THEN cbs = <<>> /\ v' = v
+          /\ IF Len(rel) = 0 \/ (~Accepted(t, rel[1].t) /\ ~Ended(t)) THEN cbs = <<>> /\ v' = v
              ELSE LET e == rel[1]
                       cands0 == IF e.t = "CERTIFICATE" THEN CertNext(sc, v)
                                 ELSE IF e.t = sc.carrier THEN PopNext(sc, v)
